@@ -104,9 +104,17 @@ def _make_env(P, ae: int, lc: bool, cache_size: int, tape: Tape):
 TG: dict = {}
 
 
-async def _render(env, entry: str, api: int, data: dict, fault_exc, gate_tape=None):
+EXTRA_GLOBAL = [False]  # some tasks pass one more template-level global, a name no template reads (set per run)
+
+
+async def _render(env, entry: str, api: int, data: dict, fault_exc, gate_tape=None, extra=None):
     try:
-        tmpl = env.get_template(entry, globals={"tg": TG[entry]} if entry in TG else None)
+        g_ = {"tg": TG[entry]} if entry in TG else None
+        if extra is not None:
+            # documented: globals of an already cached template are extended by new items - also while other
+            # renders of that template are in flight; the name is never read, so nobody's output may change
+            g_ = dict(g_ or {}, zz_unused=extra)
+        tmpl = env.get_template(entry, globals=g_)
         if api == 0:
             r_ = await tmpl.render_async(**data)
             return ("ok", scrub(native_text(r_)))
@@ -161,7 +169,7 @@ def _concurrent(tape, P, ae, lc, cache_size, specs, fault, fresh_env_per_task=Fa
                 if i == 0 or shared_env is None:
                     env.globals.update(data)
                 data = {}
-            t = loop.create_task(_render(env, entry, api, data, fault_exc, tape), name=f"r{i}")
+            t = loop.create_task(_render(env, entry, api, data, fault_exc, tape, extra=i if (EXTRA_GLOBAL[0] and i % 2 == 1) else None), name=f"r{i}")
             tasks.append((t, ev))
         if fkind == 1:
             victim = tasks[ftask][0]
@@ -205,6 +213,7 @@ def run(tape: Tape) -> Outcome:
     tagged_ok = tape.draw(8) == 7
     size = 2 + tape.draw(4)
     ENVCLS[0] = (0, 0, 0, 0, 0, 1, 2, 2)[tape.draw(8, "m")]
+    EXTRA_GLOBAL[0] = tape.draw(3, "m") == 2
     out.count("env_class_" + ("Environment", "NativeEnvironment", "SandboxedEnvironment")[ENVCLS[0]])
     P = Gen(tape, is_async=True, loopcontrols=lc, size=size, allow_module_state=tagged_ok, env_globals=True,
             template_globals=True, native=ENVCLS[0] == 1, pair_den=4).generate()
